@@ -95,10 +95,10 @@ Section Close2.
   Variable st : state.
   Let D := deps_of st.
 
-  Lemma close_reach seed fuel : forall work seen edges ns es fl,
-    (forall x, In x seen -> reach st seed x) -> incl work seen ->
+  Lemma close_reach (seeds : list nref) fuel : forall work seen edges ns es fl,
+    (forall x, In x seen -> exists s, In s seeds /\ reach st s x) -> incl work seen ->
     close fuel st work seen edges = (ns, es, fl) ->
-    forall x, In x ns -> reach st seed x.
+    forall x, In x ns -> exists s, In s seeds /\ reach st s x.
   Proof.
     induction fuel as [|f IH]; intros work seen edges ns es fl Hs Hw H; cbn [close] in H.
     - inversion H; subst. exact Hs.
@@ -106,7 +106,8 @@ Section Close2.
       eapply IH; [| |exact H].
       + intros y Hy. apply in_app_or in Hy as [Hy|Hy]; [now apply Hs|].
         apply filter_In in Hy as [Hy _]. apply (proj1 (dedup_n_In _ _)) in Hy.
-        eapply reach_step; [|exact Hy]. apply Hs, Hw. now left.
+        destruct (Hs x (Hw x (or_introl eq_refl))) as (s0 & Hs0 & R). exists s0. split; [exact Hs0|].
+        eapply reach_step; [exact R|exact Hy].
       + intros y Hy. apply in_app_or in Hy as [Hy|Hy]; apply in_or_app; [left; apply Hw; now right|now right].
   Qed.
 End Close2.
@@ -116,37 +117,38 @@ Lemma rebuild_fields seed st st' :
   rebuild seed st = Some st' ->
   st_srcs st' = st_srcs st /\ st_cache st' = st_cache st /\ st_removed st' = st_removed st /\ st_added st' = st_added st.
 Proof.
-  unfold rebuild. destruct (close _ st [seed] [seed] []) as [[ns es] [|]]; [|discriminate].
+  unfold rebuild. destruct (close _ st seed seed []) as [[ns es] [|]]; [|discriminate].
   intros H; inversion H; subst; cbn. auto.
 Qed.
 
 Lemma deps_of_rebuild seed st st' : rebuild seed st = Some st' -> forall n, deps_of st' n = deps_of st n.
 Proof.
-  unfold rebuild. destruct (close _ st [seed] [seed] []) as [[ns es] [|]]; [|discriminate].
+  unfold rebuild. destruct (close _ st seed seed []) as [[ns es] [|]]; [|discriminate].
   intros H; inversion H; subst. intros n. apply deps_of_graph_irrelevant.
 Qed.
 
 Theorem rebuild_spec seed st st' :
   rebuild seed st = Some st' ->
-  In seed (st_nodes st') /\
+  incl seed (st_nodes st') /\
   (forall x d, In x (st_nodes st') -> In d (deps_of st' x) -> In d (st_nodes st')) /\
   (forall x y, In (x, y) (st_edges st') -> In x (st_nodes st') /\ In y (st_nodes st') /\ In y (deps_of st' x)) /\
-  (forall x, In x (st_nodes st') -> reach st' seed x).
+  (forall x, In x (st_nodes st') -> exists s, In s seed /\ reach st' s x).
 Proof.
   intros H. pose proof (deps_of_rebuild _ _ _ H) as HD. revert H. unfold rebuild.
-  destruct (close _ st [seed] [seed] []) as [[ns es] fl] eqn:E. destruct fl; [|discriminate].
+  destruct (close _ st seed seed []) as [[ns es] fl] eqn:E. destruct fl; [|discriminate].
   intros H; inversion H; subst; cbn [st_nodes st_edges] in *.
-  assert (Hc0 : closed_part st [seed] [seed]) by (intros x Hx Hn; exfalso; apply Hn; exact Hx).
-  assert (He0 : edges_ok st [seed] []) by (intros x y []).
-  destruct (close_inv st _ [seed] [seed] [] ns es true (incl_refl _) Hc0 He0 E) as (I1 & I2 & I3).
-  split; [apply I1; now left|]. split; [|split].
+  assert (Hc0 : closed_part st seed seed) by (intros x Hx Hn; exfalso; apply Hn; exact Hx).
+  assert (He0 : edges_ok st seed []) by (intros x y []).
+  destruct (close_inv st _ seed seed [] ns es true (incl_refl _) Hc0 He0 E) as (I1 & I2 & I3).
+  split; [exact I1|]. split; [|split].
   - intros x d Hx Hd. rewrite HD in Hd. apply (I3 eq_refl x Hx); auto.
   - intros x y Hxy. destruct (I2 x y Hxy) as (A & B & Cc). rewrite HD. auto.
   - intros x Hx.
-    assert (R : reach st seed x).
-    { eapply (close_reach st seed _ [seed] [seed] [] ns es true); [| |exact E|exact Hx].
-      - intros y [<-|[]]. constructor.
+    assert (R : exists s, In s seed /\ reach st s x).
+    { eapply (close_reach st seed _ seed seed [] ns es true); [| |exact E|exact Hx].
+      - intros y Hy. exists y. split; [exact Hy|constructor].
       - apply incl_refl. }
+    destruct R as (s0 & Hs0 & R). exists s0. split; [exact Hs0|].
     clear -R HD. induction R; [constructor|]. econstructor; [eassumption|]. now rewrite HD.
 Qed.
 
